@@ -4,6 +4,7 @@
 // operation on one policy the complete observable snapshot of every OTHER
 // policy must be unchanged.
 #include <yorel/yomm2/core.hpp>
+#include <yorel/yomm2/macros.hpp>
 
 #include <cstdio>
 #include <cstring>
@@ -34,6 +35,9 @@ struct PB : policy::release::rebind<PB>::replace<
 struct PC : policy::basic_policy<
                 PC, policy::std_rtti, policy::vptr_map<PC>,
                 policy::vectored_error<PC>> {};
+// two policies rebound from the stock checked policy
+struct PD1 : policy::debug::rebind<PD1> {};
+struct PD2 : policy::debug::rebind<PD2> {};
 // facets that carry a second, non-default template argument, then rebound
 struct handler_provider {
     static void default_error_handler(const error_type&) {
@@ -44,6 +48,19 @@ struct PE1 : policy::basic_policy<
                  policy::vptr_map<PE1, std::map<type_id, const std::uintptr_t*>>,
                  policy::vectored_error<PE1, handler_provider>> {};
 struct PE2 : PE1::rebind<PE2> {};
+
+// the macro front end with an explicit policy, in its four forms: everything
+// they register belongs to that policy and to no other
+struct PMAC : policy::release::rebind<PMAC> {};
+YOMM2_DECLARE(int, mac_free, (virtual_<K0&>), PMAC);
+YOMM2_DEFINE(int, mac_free, (K1&)) {
+    return 1;
+}
+struct MacHolder {
+    YOMM2_STATIC_DECLARE(int, mac_static, (virtual_<K0&>), PMAC);
+};
+static class_declaration<K0, PMAC> g_mac_k0;
+static class_declaration<K1, K0, PMAC> g_mac_k1;
 
 static K0 g_o0;
 static K1 g_o1;
@@ -537,6 +554,44 @@ static void explore(int depth, int shard, int nshards, std::vector<int> prefix) 
     rec();
 }
 
+template<class L>
+static long count_of(L& list) {
+    long n = 0;
+    for (auto& x : list) {
+        (void)x;
+        ++n;
+    }
+    return n;
+}
+
+// must run before any world is reset (reset() re-creates the method catalogs)
+static void check_macro_routing() {
+    ++g_sequences;
+    long in_mac = count_of(PMAC::methods);
+    long defs = 0;
+    for (auto& m : PMAC::methods)
+        defs += count_of(m.specs);
+    long in_debug = count_of(policy::debug::methods);
+    long in_release = count_of(policy::release::methods);
+    // the stock policies hold the two methods of World<policy::debug / release> only
+    if (in_mac != 2 || defs != 1 || in_debug != 2 || in_release != 2) {
+        g_cands.push_back(
+            "MACROS \tmethods declared through the macros for policy PMAC: " +
+            std::to_string(in_mac) + " in its catalog (expected 2) with " + std::to_string(defs) +
+            " definitions (expected 1); policy::debug holds " + std::to_string(in_debug) +
+            " methods, policy::release " + std::to_string(in_release) + " (expected 2 each)");
+        return;
+    }
+    try {
+        update<PMAC>();
+        K1 k1;
+        if (mac_free(k1) != 1)
+            g_cands.push_back("MACROS \tmac_free(K1) did not run its definition");
+    } catch (...) {
+        g_cands.push_back("MACROS \tupdate / call in the macro policy reported an error");
+    }
+}
+
 int main(int argc, char** argv) {
     std::string mode = argc > 1 ? argv[1] : "quick";
     int shard = 0, nshards = 1;
@@ -547,6 +602,14 @@ int main(int argc, char** argv) {
     using WE = Worlds<World<PE1>, World<PE2>>;
     // the two stock policies themselves, not rebound
     using WS = Worlds<World<policy::debug>, World<policy::release>>;
+    using WD = Worlds<World<PD1>, World<PD2>>;
+    if (mode == "replay" && argc > 2 && std::string(argv[2]).rfind("MACROS", 0) == 0) {
+        check_macro_routing();
+        for (auto& c : g_cands)
+            printf("VIOL\t%s\n", c.c_str());
+        fflush(stdout);
+        _exit(g_cands.empty() ? 0 : 1);
+    }
     if (mode == "replay" && argc > 2) {
         std::string text = argv[2];
         std::vector<int> seq;
@@ -565,6 +628,8 @@ int main(int argc, char** argv) {
             run_sequence<WE>(seq, true);
         else if (family == "WS")
             run_sequence<WS>(seq, true);
+        else if (family == "WD")
+            run_sequence<WD>(seq, true);
         else
             run_sequence<W2>(seq, true);
         for (auto& c : g_cands)
@@ -575,6 +640,8 @@ int main(int argc, char** argv) {
     // starting points: pristine, and "policy A fully set up" (0 1 2 3 4 5 6 7 8 9)
     std::vector<int> full_a = {0, 1, 2, 3, 4, 5, 6, 7, 8, 9};
     std::vector<int> full_b = {11, 12, 13, 14, 15, 16, 17, 18, 19, 20};
+    if (shard == 0)
+        check_macro_routing();
     if (mode == "quick") {
         g_family = "W2";
         explore<W2>(4, shard, nshards, {});
@@ -587,6 +654,10 @@ int main(int argc, char** argv) {
         explore<WS>(3, shard, nshards, {});
         explore<WS>(3, shard, nshards, full_a);
         explore<WS>(3, shard, nshards, full_b);
+        g_family = "WD";
+        explore<WD>(3, shard, nshards, {});
+        explore<WD>(3, shard, nshards, full_a);
+        explore<WD>(3, shard, nshards, full_b);
     } else {
         g_family = "W2";
         explore<W2>(5, shard, nshards, {});
@@ -605,6 +676,11 @@ int main(int argc, char** argv) {
         explore<WS>(4, shard, nshards, full_a);
         explore<WS>(4, shard, nshards, full_b);
         explore<WS>(3, shard, nshards, both);
+        g_family = "WD";
+        explore<WD>(5, shard, nshards, {});
+        explore<WD>(4, shard, nshards, full_a);
+        explore<WD>(4, shard, nshards, full_b);
+        explore<WD>(3, shard, nshards, both);
         g_family = "W3";
         explore<W3>(4, shard, nshards, {});
         explore<W3>(3, shard, nshards, both);
